@@ -155,26 +155,28 @@ func build(smoke bool) (bin string, treeHash string) {
 
 // WorkerOut mirrors verifsim.WorkerOut.
 type WorkerOut struct {
-	Engine   string            `json:"engine"`
-	Profile  string            `json:"profile"`
-	Seed     uint64            `json:"seed"`
-	Runs     int               `json:"runs"`
-	FirstIdx uint64            `json:"first_idx"`
-	LastIdx  uint64            `json:"last_idx"`
-	Steps    int64             `json:"steps"`
-	SimTimeS float64           `json:"sim_time_s"`
-	WallS    float64           `json:"wall_s"`
-	Stats    map[string]int    `json:"stats"`
-	FPs      []string          `json:"fps"`
-	Hashes   []string          `json:"hashes"`
-	StepCaps int               `json:"step_caps"`
-	Leftover int               `json:"leftover_runs"`
-	Harness  string            `json:"harness"`
-	Viols    []json.RawMessage `json:"violations"`
-	Other    map[string]int    `json:"ended_by_other_property"`
-	Known    map[string]int    `json:"known"`
-	Samples  []any             `json:"samples"`
-	SiteHits []uint32          `json:"site_hits"`
+	Engine        string            `json:"engine"`
+	Profile       string            `json:"profile"`
+	Seed          uint64            `json:"seed"`
+	Runs          int               `json:"runs"`
+	FirstIdx      uint64            `json:"first_idx"`
+	LastIdx       uint64            `json:"last_idx"`
+	Steps         int64             `json:"steps"`
+	SimTimeS      float64           `json:"sim_time_s"`
+	WallS         float64           `json:"wall_s"`
+	Stats         map[string]int    `json:"stats"`
+	FPs           []string          `json:"fps"`
+	Hashes        []string          `json:"hashes"`
+	StepCaps      int               `json:"step_caps"`
+	Leftover      int               `json:"leftover_runs"`
+	Harness       string            `json:"harness"`
+	Viols         []json.RawMessage `json:"violations"`
+	Other         map[string]int    `json:"ended_by_other_property"`
+	Known         map[string]int    `json:"known"`
+	Samples       []any             `json:"samples"`
+	SiteHits      []uint32          `json:"site_hits"`
+	SiteNames     []string          `json:"site_names"`
+	StepCapSample []string          `json:"step_cap_sample"`
 }
 
 type workerSpec struct {
@@ -253,23 +255,25 @@ func tail(s string, n int) string {
 }
 
 type agg struct {
-	mu       sync.Mutex
-	runs     int
-	steps    int64
-	simTime  float64
-	stats    map[string]int
-	fps      map[string]bool
-	stepCaps int
-	leftover int
-	harness  []string
-	viols    []json.RawMessage
-	other    map[string]int
-	known    map[string]int
-	samples  []any
-	siteHits []uint32
-	firstIdx uint64
-	lastIdx  uint64
-	procs    int
+	mu            sync.Mutex
+	runs          int
+	steps         int64
+	simTime       float64
+	stats         map[string]int
+	fps           map[string]bool
+	stepCaps      int
+	leftover      int
+	harness       []string
+	viols         []json.RawMessage
+	other         map[string]int
+	known         map[string]int
+	samples       []any
+	siteHits      []uint32
+	siteNames     []string
+	stepCapSample []string
+	firstIdx      uint64
+	lastIdx       uint64
+	procs         int
 }
 
 func (a *agg) add(w *WorkerOut) {
@@ -286,6 +290,9 @@ func (a *agg) add(w *WorkerOut) {
 		a.fps[f] = true
 	}
 	a.stepCaps += w.StepCaps
+	if a.stepCapSample == nil {
+		a.stepCapSample = w.StepCapSample
+	}
 	a.leftover += w.Leftover
 	if w.Harness != "" {
 		a.harness = append(a.harness, w.Harness)
@@ -302,6 +309,9 @@ func (a *agg) add(w *WorkerOut) {
 	}
 	if a.siteHits == nil {
 		a.siteHits = make([]uint32, len(w.SiteHits))
+	}
+	if len(w.SiteNames) > 0 {
+		a.siteNames = w.SiteNames
 	}
 	for i, h := range w.SiteHits {
 		if i < len(a.siteHits) {
@@ -548,6 +558,7 @@ func cmdCheck(args []string) {
 		fatal2("harness trouble: %s", strings.Join(a.harness, "\n"))
 	}
 	if a.runs > 0 && a.stepCaps*100 > a.runs {
+		fmt.Fprintln(os.Stderr, strings.Join(a.stepCapSample, "\n"))
 		fatal2("step cap hit in %d of %d runs (>1%%)", a.stepCaps, a.runs)
 	}
 
@@ -613,11 +624,30 @@ func cmdCheck(args []string) {
 	// 5. evidence
 	wall := time.Since(start).Seconds()
 	reached, total := 0, 0
+	var unreached []string
+	files := map[string][]string{"client": {"client.go:", "agent.go:"}, "agent": {"agent.go:"}, "hmac": {"hmac.go:", "pool.go:"}}[engine]
 	for i, h := range a.siteHits {
-		_ = i
+		if i >= len(a.siteNames) {
+			break
+		}
+		n := a.siteNames[i]
+		if !strings.Contains(n, " stmt ") {
+			continue // only statement yields count; lock/atomic/access sites are not yields
+		}
+		mine := false
+		for _, f := range files {
+			if strings.HasPrefix(n, f) {
+				mine = true
+			}
+		}
+		if !mine {
+			continue
+		}
 		total++
 		if h > 0 {
 			reached++
+		} else {
+			unreached = append(unreached, n)
 		}
 	}
 	faults := map[string]int{}
@@ -635,20 +665,21 @@ func cmdCheck(args []string) {
 	}
 	searchWall := float64(budgetS)
 	cov := map[string]any{
-		"evaluations":         a.runs,
-		"distinct_nontrivial": len(a.fps),
-		"rule":                ruleText(engine),
-		"samples":             a.samples,
-		"runs_per_hour":       int(float64(a.runs) / searchWall * 3600),
-		"seeds":               map[string]any{"base": seed, "first_run": 0, "last_run": a.lastIdx},
-		"sched_steps":         a.steps,
-		"simulated_time_s":    a.simTime,
-		"faults_fired":        faults,
-		"probes":              probes,
-		"counters":            other,
-		"yield_sites_reached": reached,
-		"yield_sites_total":   total,
-		"step_cap_hits":       a.stepCaps,
+		"evaluations":              a.runs,
+		"distinct_nontrivial":      len(a.fps),
+		"rule":                     ruleText(engine),
+		"samples":                  a.samples,
+		"runs_per_hour":            int(float64(a.runs) / searchWall * 3600),
+		"seeds":                    map[string]any{"base": seed, "first_run": 0, "last_run": a.lastIdx},
+		"sched_steps":              a.steps,
+		"simulated_time_s":         a.simTime,
+		"faults_fired":             faults,
+		"probes":                   probes,
+		"counters":                 other,
+		"yield_sites_reached":      reached,
+		"yield_sites_total":        total,
+		"yield_sites_unreached":    unreached,
+		"step_cap_hits":            a.stepCaps,
 		"runs_with_leftover_tasks": a.leftover,
 		"ended_by_other_property":  a.other,
 		"known_findings_matched":   a.known,
